@@ -41,10 +41,13 @@ type surveyPoint struct {
 
 type surveyResult struct {
 	surveyPoint
-	Loads bool     `json:"compiles"`
-	Fired []string `json:"fired"`
-	Keys  []string `json:"keys,omitempty"`
+	Loads     bool     `json:"compiles"`
+	Fired     []string `json:"fired"`
+	Keys      []string `json:"keys,omitempty"`
+	FastTests string   `json:"fast_tests,omitempty"` // for unflagged mutants: does a ~15 s subset of the repository's tests notice? (triage aid only)
 }
+
+const surveyTestRegex = `Test(Bucket_(Put|Delete|Get|Nested|DeleteBucket|ForEach|NextSequence|Sequence)|Cursor_|Tx_(Commit|Rollback|CreateBucket|DeleteBucket|OnCommit|Check|CopyFile|Cursor|ForEach)|DB_(Update|View|Batch|Begin|Close|Open_ReadOnly|Stats|Consistency)|Open|Node_|Freelist|FreeList|Pgids|Page)`
 
 func nodeText(fset *token.FileSet, n ast.Node) string {
 	var b bytes.Buffer
@@ -258,6 +261,16 @@ func runSurvey(repo, out string, par int, limit int) {
 							}
 							sort.Strings(res.Fired)
 						}
+						if res.Loads && len(res.Fired) == 0 && os.Getenv("VERIF_SURVEY_TESTS") != "" {
+							t := exec.Command("timeout", "240", "go", "test", "-count=1", "-short", "-run", surveyTestRegex, ".", "./internal/...")
+							t.Dir = dir
+							t.Env = os.Environ()
+							if err := t.Run(); err != nil {
+								res.FastTests = "fail"
+							} else {
+								res.FastTests = "pass"
+							}
+						}
 					} else {
 						_ = o
 					}
@@ -275,6 +288,12 @@ func runSurvey(repo, out string, par int, limit int) {
 	}
 	wg.Wait()
 	det, comp := 0, 0
+	residue := 0
+	for _, r := range results {
+		if r.Loads && len(r.Fired) == 0 && r.FastTests == "pass" {
+			residue++
+		}
+	}
 	byOp := map[string][2]int{}
 	byFile := map[string][2]int{}
 	for _, r := range results {
@@ -294,7 +313,7 @@ func runSurvey(repo, out string, par int, limit int) {
 		byOp[strings.Fields(r.Op)[0]] = a
 		byFile[r.File] = b
 	}
-	summary := map[string]any{"points": len(results), "compiling": comp, "flagged_by_some_rule": det, "by_operator": byOp, "by_file": byFile,
+	summary := map[string]any{"points": len(results), "compiling": comp, "flagged_by_some_rule": det, "unflagged_and_fast_tests_pass": residue, "by_operator": byOp, "by_file": byFile,
 		"note": "flagged = at least one rule of some property fails on the mutant and not on the unmutated tree. Unflagged mutants are NOT all property violations: many are behaviour-preserving (logging, statistics, assertions) or change value-level behaviour that no static rule here decides."}
 	b, _ := json.MarshalIndent(map[string]any{"summary": summary, "results": results}, "", " ")
 	_ = os.WriteFile(out, b, 0o644)
